@@ -174,7 +174,40 @@ func c12Loosen(t *rapid.T, p *numgen.Program) {
 		}
 		switch s := st.(type) {
 		case numgen.Send:
-			switch rapid.IntRange(0, 6).Draw(t, "where") {
+			switch rapid.IntRange(0, 7).Draw(t, "where") {
+			case 7:
+				// one designation named several times in an ordered list (directly, nested or under a cap): a literal,
+				// a plain variable, or an account looked up from metadata
+				var d numgen.Expr
+				switch rapid.IntRange(0, 3).Draw(t, "repeatedKind") {
+				case 0:
+					d = numgen.LitAccount{Name: rapid.SampledFrom([]string{"a", "b", "world"}).Draw(t, "repLit")}
+				case 1:
+					d = numgen.VarRef{Name: rapid.SampledFrom([]string{"acc1", "acc2", "ghost"}).Draw(t, "repVar")}
+				default:
+					declared := false
+					for _, v := range p.Vars {
+						if v.Name == "macc" {
+							declared = true
+						}
+					}
+					if !declared {
+						p.Vars = append(p.Vars, numgen.VarDecl{Type: numgen.TAccount, Name: "macc", Origin: numgen.MetaOrigin{Acc: numgen.LitAccount{Name: "cfg"}, Key: "src"}})
+					}
+					d = numgen.VarRef{Name: "macc"}
+				}
+				srcs := []numgen.Source{numgen.SrcAccount{Acc: d}}
+				if rapid.Bool().Draw(t, "repBetween") {
+					srcs = append(srcs, numgen.SrcAccount{Acc: anyExpr()})
+				}
+				var again numgen.Source = numgen.SrcAccount{Acc: d}
+				switch rapid.IntRange(0, 3).Draw(t, "repShape") {
+				case 0:
+					again = numgen.SrcInOrder{Srcs: []numgen.Source{again}}
+				case 1:
+					again = numgen.SrcMax{Max: numgen.LitMonetary{Asset: numgen.LitAsset{Name: "USD"}, Amount: big.NewInt(5)}, Src: again}
+				}
+				s.Src = numgen.SrcInOrder{Srcs: append(srcs, again)}
 			case 0:
 				s.Amount, s.AllAsset = anyExpr(), nil
 			case 1:
@@ -318,7 +351,7 @@ func c12Judge(text string, env *numgen.Env, cc *command.Compiler) (out c12Outcom
 
 func TestC12(t *testing.T) {
 	c := evid.New("C12")
-	c.Rule = "generators: (0) revisit: a typed program extended by 2-4 statements that save (all / an amount), credit and debit one and the same account and asset; (1) typed programs loosened at the AST level (any expression in any position, portions that do not add up, unbounded sources anywhere, save/print/fail, extra or duplicated variables with meta/balance origins) with loosened environments (missing / extraneous / malformed bindings and metadata, negative and huge balances); (2) token-level mutation of program text (delete, duplicate, swap, replace by hostile tokens incl. CR, NUL, multi-byte runes, huge numbers, comment markers; truncate); (3) splices of two programs. Oracle: no panic in compile / SetVarsFromJSON / ResolveResources / ResolveBalances / Run nor in rendering the returned error; termination within a watchdog; A-B-A: the same input gives the same outcome after an unrelated script ran through the shared compilation cache, and the unrelated script is unaffected; a quarter of the inputs are also submitted to a long-lived Commander (model store with the history left by the earlier inputs; a third of these runs carry an idempotency key drawn from a pool mixing used and fresh keys, some as previews, and are surrounded by keyed metadata writes and reverts drawing from the same pool, so keys meet log entries of every kind): no panic, and a plain transaction still commits afterwards; 4% of the cases are concurrent histories on the real engine under the simulator's scheduler (all kinds of writes, shared keys and references, previews, one restart): no request may panic. Non-trivial = the text passes the parser and compiler (the VM stages are reached); distinct by script text + environment."
+	c.Rule = "generators: (0) revisit: a typed program extended by 2-4 statements that save (all / an amount), credit and debit one and the same account and asset; (1) typed programs loosened at the AST level (any expression in any position, portions that do not add up, unbounded sources anywhere, save/print/fail, one designation -- literal, plain variable, account looked up from metadata -- named several times in one ordered source, extra or duplicated variables with meta/balance origins) with loosened environments (missing / extraneous / malformed bindings and metadata, negative and huge balances); (2) token-level mutation of program text (delete, duplicate, swap, replace by hostile tokens incl. CR, NUL, multi-byte runes, huge numbers, comment markers; truncate); (3) splices of two programs. Oracle: no panic in compile / SetVarsFromJSON / ResolveResources / ResolveBalances / Run nor in rendering the returned error; termination within a watchdog; A-B-A: the same input gives the same outcome after an unrelated script ran through the shared compilation cache, and the unrelated script is unaffected; a quarter of the inputs are also submitted to a long-lived Commander (model store with the history left by the earlier inputs; a third of these runs carry an idempotency key drawn from a pool mixing used and fresh keys, some as previews, and are surrounded by keyed metadata writes and reverts drawing from the same pool, so keys meet log entries of every kind): no panic, and a plain transaction still commits afterwards; 4% of the cases are concurrent histories on the real engine under the simulator's scheduler (all kinds of writes, shared keys and references, previews, one restart): no request may panic. Non-trivial = the text passes the parser and compiler (the VM stages are reached); distinct by script text + environment."
 	c.Assumptions = []string{"a watchdog expiry (20 s, re-run alone with 60 s) is a hang only if it repeats; a single expiry is counted as discarded"}
 	cfg := numgen.GenCfg{MaxDepth: 2, MaxStmts: 3}
 	cc := command.NewCompiler(64)
